@@ -7,7 +7,7 @@ CFG = {
     "technique": "stateless model checking of the real graph.Instance under a controlled scheduler: ALL interleavings of 2-3 client goroutines (unbounded preemptions) per client program, porcupine linearizability check of every complete call/return history, ThreadSanitizer attributed per schedule",
     "level_text": "The real generator/graph Instance (instrumented at build time: sync -> wrappers around the real primitives) is driven by every client program of 2 clients x <=2 operations and 3 clients x 1 operation over the 8-operation alphabet {UpdateParameter(a|b,1|2), ParameterData(a|b), Artifact(p1|p2)} (thorough: also 3 clients x <=2 and 2 clients x <=3 operations over 5 operations), on a graph whose producers depend on both parameters through shared and multi-level nodes and whose processors yield between reading their inputs (a torn snapshot is observable, an unprotected evaluation interleavable). For every program every interleaving is executed (unbounded: the schedule tree is exhausted); each complete history, with scheduler-step call/return times, is checked by porcupine against the sequential model 'two integers; artifact = render(state)'; no execution may deadlock, panic, or produce a ThreadSanitizer report. Go map iteration order is pinned through the runtime overlay so that schedules replay exactly.",
     "level_note": "Trusted: rt/vsched + rt/vsync (self-tested in every run), tools/vinstr rewriting, porcupine v1.3.0, ThreadSanitizer. Scheduling points sit before every acquiring/blocking synchronisation operation and at the harness Yield inside processors (release and spawn points are redundant for race-free code and are covered by the race detector). Not covered: more than 3 clients or 3 operations per client, the HTTP/websocket layer above Instance (the handlers call exactly these three methods), memory-model effects TSan does not report.",
-    "jobs": [{"variant": "sched-c13", "id": "C13s", "env": {"GORACE": "log_path=/verif/.work/race/c13 halt_on_error=0 history_size=2"}, "no_ulimit": True}],
+    "jobs": [{"variant": "sched-c13", "id": "C13s", "env": {"GORACE": "log_path={WORK}/race/c13 halt_on_error=0 history_size=2"}, "no_ulimit": True}],
     "budget": {"quick": 90, "thorough": 1200},
     "rule": "every schedule (choice vector) of every client program; non-trivial = programs with at least one update and one observing call (others are not generated); distinct by (program, choice vector)",
     "assumptions": COMMON_ASSUME + ["map iteration order pinned to the default position (owned, not sampled); clients call Instance directly"],
